@@ -11,11 +11,13 @@ import (
 func init() { registry["C18"] = checkC18 }
 
 func checkC18(c *Ctx, r *Report) {
-	r.Explain = "Decides structural necessary conditions of 'resync equals evaluating the new sync function from scratch': (R1) a resync run that completed reports success only after principal invalidation (or principal sequence regeneration) ran and succeeded, the invalidation visits every user (roles and channels) and every role, and storage errors on that path propagate; (R2) the per-document resync applies the same trio as the write path — channel assignment, user access grants and role grants — to the outputs of the sync-function evaluation, evaluates every leaf revision, and applies grants only for the current revision; (R3) a rejected evaluation contributes nothing: on the failure edge of the evaluation the values reaching channel assignment, access and role grants are all nil (resync), and the write path returns before applying any of them.; (R4) role invalidation is decided by the nil-ness (already invalid) of the computed role set, never by its length. Not decided: differential equivalence with a freshly built database, idempotence of a second run, races with concurrent writes."
+	r.Explain = "Decides structural necessary conditions of 'resync equals evaluating the new sync function from scratch': (R1) a resync run that completed reports success only after principal invalidation (or principal sequence regeneration) ran and succeeded, the invalidation visits every user (roles and channels) and every role, and storage errors on that path propagate; (R2) the per-document resync applies the same trio as the write path — channel assignment, user access grants and role grants — to the outputs of the sync-function evaluation, evaluates every leaf revision, and applies grants only for the current revision; (R3) a rejected evaluation contributes nothing: on the failure edge of the evaluation the values reaching channel assignment, access and role grants are all nil (resync), and the write path returns before applying any of them.; (R4) role invalidation is decided by the nil-ness (already invalid) of the computed role set, never by its length.; (R5) a change of any leaf's channel set — also of a non-winning leaf, whose channels live only in the revision tree — reaches the decision to rewrite the document; (R6) the end-of-run invalidation of all principals does not depend on the in-memory changed-document counter. Not decided: differential equivalence with a freshly built database, idempotence of a second run, races with concurrent writes."
 	c18R1(c, r)
 	checkInvalidationPersisted(c, r, "C18-R1")
 	c18R2R3(c, r)
 	c18R4(c, r)
+	c18R5(c, r)
+	c18R6(c, r)
 }
 
 func c18R1(c *Ctx, r *Report) {
@@ -238,6 +240,7 @@ func c18R2R3(c *Ctx, r *Report) {
 	// the rewrite decision: the integer cell of the enclosing function that the per-leaf callback assigns and that is compared
 	// with zero afterwards (identified by that role, not by name)
 	var changedCell *ssa.Alloc
+	var changedCells []*ssa.Alloc // every variable of the decision (the winning leaf's count, a separate count for other leaves, …)
 	EachInstr(top, false, func(in ssa.Instruction) {
 		b, ok := in.(*ssa.BinOp)
 		if !ok || (b.Op != token.EQL && b.Op != token.NEQ) {
@@ -257,6 +260,13 @@ func c18R2R3(c *Ctx, r *Report) {
 		for _, st := range storesInto(al) {
 			if st.Parent() == lit {
 				changedCell = al
+				dup := false
+				for _, x := range changedCells {
+					dup = dup || x == al
+				}
+				if !dup {
+					changedCells = append(changedCells, al)
+				}
 			}
 		}
 	})
@@ -264,9 +274,11 @@ func c18R2R3(c *Ctx, r *Report) {
 		r.Fail("C18-R2", "fn=getResyncedDocument rewrite-decision", c.Pos(top.Pos()), "the variable deciding whether the document is rewritten was not found")
 	} else {
 		var vals []ssa.Value
-		for _, st := range storesInto(changedCell) {
-			if st.Parent() == lit {
-				vals = append(vals, st.Val)
+		for _, cell := range changedCells {
+			for _, st := range storesInto(cell) {
+				if st.Parent() == lit {
+					vals = append(vals, st.Val)
+				}
 			}
 		}
 		for _, s := range sinks {
